@@ -1,5 +1,7 @@
 """mirsym: path-wise symbolic execution of rustc MIR text, discharged by z3."""
+import os
 import re
+import sys
 import time
 import itertools
 import z3
@@ -143,6 +145,7 @@ class Engine:
         self.intrinsics = []      # (regex, fn, label)
         self.stubs = []           # per-check (regex, fn, label)
         self.struct_models = {}   # type last segment -> fn(eng, st, base) building a symbolic value
+        self.type_models = []     # harness hook: (regex over the full type text, maker(eng, st, base, ty)) consulted first by fresh_of_type
         self.unsupported_as_outcome = False   # harness option: a path that leaves the executor's vocabulary ends as Outcome('unsupported')
         self.lenient = False      # under-constrained mode: unknown callees become uninterpreted calls
         self.block_budget = None  # deterministic exploration budget (basic blocks) for bug-hunting scans
@@ -410,6 +413,9 @@ class Engine:
         if m and depth < 4:
             inner = self.fresh_of_type(st, m.group(3), base + '.p', depth + 1)
             return Ref(self.alloc(st, inner, 'fresh'), (), bool(m.group(2)))
+        for rx, mk in self.type_models:
+            if rx.search(ty):
+                return mk(self, st, base, ty)
         ls = last_seg(ty)
         if not ty.startswith('&') and '<' not in ty and ls in self.struct_models:
             return self.struct_models[ls](self, st, base)
@@ -1298,6 +1304,9 @@ class Engine:
                     r = f(self, s, args, ci)
                 except (Unsupported, AttributeError, TypeError, KeyError, IndexError, AssertionError) as e:
                     if self.lenient:
+                        if os.environ.get('MIRSYM_DEBUG'):
+                            print('[mirsym] summary %s does not apply to %s: %s: %s' % (label, callee[:80], type(e).__name__, e), file=sys.stderr)
+                        self.stats.setdefault('summaries_declined', {})[label] = str(e)[:120]
                         return [(s, 'ret', self.uninterpreted_call(s, callee, args, ci))]
                     if isinstance(e, Unsupported):
                         raise
